@@ -27,6 +27,13 @@ import Bng.Model.Dhcp4
   circuit-id (circuit_id_subscribers and the hash-keyed circuit_id_map).  RADIUS accounting is the table of records
   the accounting server received, per Acct-Session-Id in order of first appearance (`sess` = that ordinal).
 
+  (Since 1f47870 handleRelease / handleDecline also delete the circuit-id index entry and give the address back to the
+  pool INSIDE that critical section; the model keeps the pool release in the tail.  The two orders differ only in the
+  order in which two DIFFERENT addresses reach the free list when a second termination of another client runs in
+  between - a pair the harness refuses - and no theorem depends on that order.  207289c - handleRequest re-reads the
+  table under the write lock and starts over when the client's entry changed - concerns what runs BEFORE the lease
+  insert; the window modelled by `estGap` is the one AFTER it, which is unchanged.)
+
   Concurrency.  Every termination takes the lease out of the table inside ONE critical section of leasesMu
   (`takeRelease` / `takeDecline`; the removal loop of the cleanup holds the write lock throughout) and then works on
   the lease object it took.  `Op.split first second` runs a second termination after the first one has dropped the
